@@ -586,6 +586,10 @@ def units():
     # ... guard, function, arguments and assignees of an AssignFunctionCall
     us += chain_units("AssignFunctionCall", ["condition"], extra_post=call_post)
     us += [LemmaUnit("lemma:identity-map(C08)", identity_lemma), FunctionUnit(FusePhases()), FunctionUnit(FuseDags())]
+    # A-FUSE finds the names used by a method through get_read_variables / get_written_variables: the declared
+    # sets (C08) are functions this property depends on
+    from . import c08
+    us += c08.units()
     return us
 
 
